@@ -44,9 +44,10 @@ type txRunner struct {
 	npkts int
 	scn   int
 
-	sizeOps int
-	failing bool // the transport has been told to fail (FailWrite)
-	dead    bool // a call got stuck: the scenario is given up
+	sizeOps     int
+	setupFailed bool // the logical channel of this scenario could not be set up: its operations are skipped
+	failing     bool // the transport has been told to fail (FailWrite)
+	dead        bool // a call got stuck: the scenario is given up
 }
 
 func newInfo() *tds.Info {
@@ -75,7 +76,7 @@ func (r *txRunner) reset(desc interface{}) error {
 					break
 				}
 				if buf[0] == 8 {
-					mc.Feed(mkPacket(11, 1, int(buf[4])<<8|int(buf[5]), 0, nil))
+					mc.Feed(mkPacket(11, 1, int(buf[4])<<8|int(buf[5]), 3*int(buf[5])%256, nil))
 				}
 				buf = buf[hl:]
 			}
@@ -90,10 +91,31 @@ func (r *txRunner) reset(desc interface{}) error {
 		return err
 	}
 	for i := 0; i < r.chanN; i++ {
-		if ch, err = conn.NewChannel(); err != nil {
-			return err
+		// (bounded: a setup whose acknowledgement never arrives - because the setup packet named another channel,
+		// say - must not take the driver with it)
+		type res struct {
+			ch  *tds.Channel
+			err error
+		}
+		rc := make(chan res, 1)
+		go func() { c, e := conn.NewChannel(); rc <- res{c, e} }()
+		select {
+		case x := <-rc:
+			ch, err = x.ch, x.err
+		case <-time.After(5 * time.Second):
+			ch, err = nil, errors.New("NewChannel did not return within 5 s although the peer acknowledges every setup packet it is sent")
+		}
+		if err != nil {
+			// the peer acknowledged the setup: a refusal is an event for the specification (which has no step for it)
+			r.conn = conn
+			r.tr.Reset(desc)
+			r.scn++
+			r.tr.Emit(Ev{"ev": "ChanFailed", "text": err.Error()})
+			r.setupFailed = true
+			return nil
 		}
 	}
+	r.setupFailed = false
 	r.mc.TakeWrites() // the setup packets are not part of any message
 	r.conn, r.ch = conn, ch
 	r.msg, r.wired, r.next = nil, 0, 0
@@ -101,6 +123,12 @@ func (r *txRunner) reset(desc interface{}) error {
 	r.scn++
 	r.tr.Emit(Ev{"ev": "Chan", "id": ch.VerifChannelID(), "ps": conn.PacketSize(), "typ": int(ch.CurrentHeaderType), "nr": b2i(r.chanN > 0)})
 	return nil
+}
+
+func (r *txRunner) failedWrites() int {
+	r.mc.mu.Lock()
+	defer r.mc.mu.Unlock()
+	return r.mc.failedWrites
 }
 
 var errStuck = errors.New("the call did not return within the bound")
@@ -271,9 +299,10 @@ func (r *txRunner) apply(op txOp) {
 		case 3:
 			r.mc.failErr = &net.OpError{Op: "write", Net: "tcp", Err: failErr{"i/o timeout"}}
 		}
+		r.mc.failFull = op.N%7 == 5
 		r.mc.mu.Unlock()
 		r.failing = true
-		r.tr.Emit(Ev{"ev": "WriteFail", "after": op.N})
+		r.tr.Emit(Ev{"ev": "WriteFail", "after": op.N, "full": op.N%7 == 5})
 	case "Type":
 		r.ch.CurrentHeaderType = tds.PacketHeaderType(op.N)
 		r.tr.Emit(Ev{"ev": "SetType", "typ": op.N})
@@ -303,22 +332,26 @@ func (r *txRunner) apply(op txOp) {
 		pkg, enc := r.pkg(op)
 		r.msg = append(r.msg, enc...)
 		r.tr.Emit(Ev{"ev": "Queue", "n": len(enc), "ctx": cx, "typ": int(r.ch.CurrentHeaderType)})
+		fw := r.failedWrites()
 		err := r.call(func() error { return r.ch.QueuePackage(r.ctxFor(op), pkg) })
+		hit := r.failedWrites() > fw
 		before := r.npkts
 		r.wires()
 		if r.npkts-before != op.Npk && op.Body > 0 {
 			r.drift++
 		}
-		r.tr.Emit(Ev{"ev": "QueueEnd", "st": errClass(err), "typ": int(r.ch.CurrentHeaderType)})
+		r.tr.Emit(Ev{"ev": "QueueEnd", "st": errClass(err), "typ": int(r.ch.CurrentHeaderType), "hit": hit})
 	case "Flush":
 		r.tr.Emit(Ev{"ev": "Flush", "n": 0, "ctx": cx, "typ": int(r.ch.CurrentHeaderType)})
+		fw := r.failedWrites()
 		err := r.call(func() error { return r.ch.SendRemainingPackets(r.ctxFor(op)) })
+		hit := r.failedWrites() > fw
 		before := r.npkts
 		r.wires()
 		if r.npkts-before != op.Npk && op.Body > 0 { // model drift (TxPath.tla predicts the packets of every step)
 			r.drift++
 		}
-		r.tr.Emit(Ev{"ev": "FlushEnd", "st": errClass(err), "typ": int(r.ch.CurrentHeaderType)})
+		r.tr.Emit(Ev{"ev": "FlushEnd", "st": errClass(err), "typ": int(r.ch.CurrentHeaderType), "hit": hit})
 		r.msg, r.wired = nil, 0
 		r.nmsg++
 	case "Send":
@@ -336,9 +369,11 @@ func (r *txRunner) apply(op txOp) {
 		pkg, enc := r.pkg(op)
 		r.msg = append(r.msg, enc...)
 		r.tr.Emit(Ev{"ev": "Send", "n": len(enc), "ctx": cx, "typ": int(r.ch.CurrentHeaderType)})
+		fw := r.failedWrites()
 		err := r.call(func() error { return r.ch.SendPackage(r.ctxFor(op), pkg) })
+		hit := r.failedWrites() > fw
 		r.wires()
-		r.tr.Emit(Ev{"ev": "FlushEnd", "st": errClass(err), "typ": int(r.ch.CurrentHeaderType)})
+		r.tr.Emit(Ev{"ev": "FlushEnd", "st": errClass(err), "typ": int(r.ch.CurrentHeaderType), "hit": hit})
 		r.msg, r.wired = nil, 0
 		r.nmsg++
 	}
@@ -349,6 +384,9 @@ func (r *txRunner) run(ops []txOp) error {
 		return err
 	}
 	for _, op := range ops {
+		if r.setupFailed {
+			break
+		}
 		r.apply(op)
 	}
 	return nil
@@ -537,6 +575,18 @@ func txMain(args []string) error {
 				return err
 			}
 		}
+	}
+	if *directed != "" || *count > 0 {
+		// a channel id that does not fit into one byte (the header carries two)
+		body := 248 + rng.Intn(300)
+		ops := []txOp{{Op: "Size", Body: body}}
+		ops = txMessage(rng, ops, 2*body+7, body, 0)
+		ops = txMessage(rng, ops, 2*body, body, 1)
+		r.chanN = 256 + rng.Intn(40)
+		if err := r.run(ops); err != nil {
+			return err
+		}
+		r.chanN = 0
 	}
 	for i := 0; i < *count; i++ {
 		var body int
